@@ -1934,6 +1934,14 @@ static int _GD_AddAlias(DIRFILE *restrict D, const char *restrict parent,
     }
     fragment_index = P->fragment_index;
 
+    /* a metafield alias goes into its parent's fragment: that's the one whose
+     * protection counts */
+    if (D->fragment[fragment_index].protection & GD_PROTECT_FORMAT) {
+      _GD_SetError(D, GD_E_PROTECTED, GD_E_PROTECTED_FORMAT, NULL, 0,
+          D->fragment[fragment_index].cname);
+      goto add_alias_error;
+    }
+
     /* make sure it's not a meta field already or an alias */
     if (P->e->n_meta == -1 || P->field_type == GD_ALIAS_ENTRY) {
       _GD_SetError(D, GD_E_BAD_CODE, GD_E_CODE_INVALID, NULL, 0, parent);
